@@ -110,3 +110,13 @@ theorem C01_find_child_is_the_source (h : Nat) (n x : Bytes) (ks : List T) :
     Src.Node.findChildByText (toNode h (.mk n ks)) x = ((splitAtName x ks).map (fun p => p.2.1)).map (toNode (h + 1)) :=
   findChildByText_is_splitAtName h n x ks
 end Gtree
+
+namespace Gtree
+/-- Tie to the source: a node's branch is set by `Node.setBranch` (node.go, translated on this run) to the
+    concatenation, in order, of the strings the grower hands it — the concatenation `C01_render_refines_spec` is
+    about. -/
+theorem C01_branch_is_concatenation_in_the_source (n : Src.Node) (parts : List Bytes) :
+    (Src.Node.setBranch n parts).1 = { n with brnch := { n.brnch with value := parts.flatten } } :=
+  setBranch_src n parts
+end Gtree
+
